@@ -726,6 +726,13 @@ func (s *BaseNodeService) processMessage(message storage.Message) (*types.Operat
 		}
 	}
 
+	// Only deals are sent to a single participant. Anything else is public data that every
+	// participant must see in the same form: a participant could otherwise tell one node other
+	// commitments (or another key) than it broadcasts to the rest.
+	if message.RecipientAddr != "" && fsm.Event(message.Event) != dpf.EventDKGDealConfirmationReceived {
+		return nil, fmt.Errorf("message %s is addressed to %s alone, only deals may be", message.Event, message.RecipientAddr)
+	}
+
 	switch fsm.Event(message.Event) {
 	case types.SignatureReconstructed: // save broadcasted reconstructed signature
 		if err := s.processSignature(message); err != nil {
